@@ -47,6 +47,12 @@ namespace heap {
    void set_owner(int owner);              // sub-arena used for subsequent SUT allocations
    void set_policy(int policy);            // switch the placement policy in the middle of a run (per client)
    int  policy();
+   // What a fresh SUT block contains before its owner writes to it: 1 zero bytes, 2 0xFF, 3 the digit '5', 4 pseudo-random bytes.
+   // Every block is filled (reset picks a mode per owner from the seed), so nothing a run reads depends on earlier runs, and code
+   // that reads memory it never wrote sees different bytes under different modes.
+   enum Fill : int { FillZero = 1, FillOnes = 2, FillDigit = 3, FillRandom = 4, FillCount = 4 };
+   void set_fill(int owner, int mode);
+   int  fill(int owner);
    int  owner();
    void begin_op(uint32_t op_index);       // allocations are tagged with this op; per-op counter reset
    void arm_fault(uint32_t k);             // the k-th SUT allocation of the current op throws bad_alloc (0 = disarm)
